@@ -45,6 +45,20 @@ func writerJobs(scribble int64) (quick, thorough []*Job) {
 	add(&thorough, 2, 3, 2, 2, 1, 1*8+0, 0)
 	add(&thorough, 1, 2, 3, 1, 1, 2*64+1*8+0, 1)
 	thorough = append(thorough, &Job{Pkg: "", Func: "ZZ_C01_Writers", Args: []int64{1, 1, 2, 2, 2, 1*8 + 0, 0, scribble}, Bounds: b, Limit: 3000e9})
+	// context-taking entry points with a context that ends before / during the call, on a queue with room
+	bc := "one writer, two calls through CtxWrite1 / CtxWritev with a context cancelled before the call or by a concurrent goroutine; queue 0..2, both queue modes"
+	for _, q := range []int64{0, 1, 2} {
+		for _, until := range []int64{0, 1} {
+			for _, e := range []int64{2, 3, 6} {
+				for _, mode := range []int64{0, 1} {
+					if q == 0 && (until == 1 || e == 6) {
+						continue
+					}
+					quick = append(quick, &Job{Pkg: "", Func: "ZZ_C01_Ctx", Args: []int64{q, until, e, mode}, Bounds: bc})
+				}
+			}
+		}
+	}
 	bs := "single writer, payload sizes {0,1,1023,1024,1025,2048,65536,65537} with symbolic contents through each entry point, followed by a 2-byte write through the next entry point"
 	for e := int64(0); e < 8; e++ {
 		for si := int64(0); si < 8; si++ {
@@ -73,6 +87,19 @@ func preciseJobs(scribble int64) (quick, thorough []*Job) {
 	for _, c := range [][]int64{{4, 2, 2, 0}, {4, 2, 2, 1}, {6, 3, 2, 2}, {2, 2, 1, 4}} {
 		quick = append(quick, &Job{Pkg: "", Func: "ZZ_C10_Recycle", Args: c, Bounds: br, PoolPrecise: true})
 	}
+	// backlogs larger than one batch (q/2+1)
+	for _, c := range [][]int64{{4, 4, 2, 0}, {3, 3, 2, 1}} {
+		quick = append(quick, &Job{Pkg: "", Func: "ZZ_C10_Recycle", Args: c, Bounds: br, PoolPrecise: true})
+	}
+	bf := "sequential (manual executor), non-blocking queue filled, one call refused (queue full, optionally with an ended context) through each entry point incl. ReadFrom, sender drains and recycles, two more payloads; precise pool model"
+	for _, c := range [][]int64{{2, 8, 0}, {2, 9, 0}, {2, 0, 0}, {2, 1, 0}, {3, 3, 1}, {2, 2, 1}, {2, 4, 0}, {3, 6, 0}} {
+		quick = append(quick, &Job{Pkg: "", Func: "ZZ_C10_FailThenRecycle", Args: c, Bounds: bf, PoolPrecise: true})
+	}
+	brf := "Channel.ReadFrom streaming 2-3 chunks (one pooled buffer each) while a second writer uses Write1 and scribbles; pooled buffers havocked on Put; ALL interleavings"
+	for _, c := range [][]int64{{2, 1, 2, 1}, {1, 1, 2, 0}, {2, 0, 2, 1}, {0, 0, 2, 1}, {1, 0, 2, 1}} {
+		quick = append(quick, &Job{Pkg: "", Func: "ZZ_C10_ReadFrom", Args: c, Bounds: brf})
+	}
+	thorough = append(thorough, &Job{Pkg: "", Func: "ZZ_C10_ReadFrom", Args: []int64{3, 1, 3, 1}, Bounds: brf})
 	thorough = append(thorough, &Job{Pkg: "", Func: "ZZ_C10_Recycle", Args: []int64{6, 3, 3, 5}, Bounds: br, PoolPrecise: true})
 	return
 }
@@ -102,7 +129,7 @@ func init() {
 	}, commonAssumptions...)
 	Specs["C01"] = &Spec{
 		Jobs: jobsBy(q0, t0), Labels: labelFilter("c01-"),
-		MustReach: []string{"c01-quiescent", "c01-sizes-done", "c01-queue-full"},
+		MustReach: []string{"c01-quiescent", "c01-sizes-done", "c01-queue-full", "c01-ctx-call-failed", "c01-ctx-call-accepted"},
 		Bounds: map[string]string{
 			"quick":    "2 writers x 1 write, 1 writer x 2 writes, 2+1 writes and 3 writers x 1 write, queue sizes 0 (synchronous), 1, 2, both queue modes, three entry-point combinations, one empty payload; single-writer size sweep over 28 of 64 (entry point, size) combinations incl. 65537 bytes through every entry point",
 			"thorough": "2+1 writes and 3 writers x 1 write for queue sizes 1..3 in both modes, 1 writer x 3 writes, 2 writers x 2 writes (queue 1, up to 50 min), all 64 entry-point pairs, full size sweep",
